@@ -445,4 +445,242 @@ theorem isPow2_ptr (f : Fmt) : isPow2 f.ptrSize = true := by cases f <;> decide
 theorem isPow2_tls (f : Fmt) : isPow2 (tlsAlign f) = true := by cases f <;> decide
 theorem isPow2_lc (f : Fmt) : isPow2 (lcAlign f) = true := by cases f <;> decide
 
+/-! ### debug directory -/
+
+theorem rawRef_eq_ok {site : String} {img : Img} {off size align : Nat} (h1 : off + size ≤ img.bytes.size)
+    (h2 : (img.base + off) % align = 0) : rawRef site img off size align = .ok ⟨off, size, align⟩ := by
+  unfold rawRef; rw [if_pos ⟨h1, h2⟩]
+
+/-- `Dir::data` is the raw-data window of the specification -/
+theorem dirData_eq_spec (v : View) (d : Nat) :
+    dirData v d = (Spec.rawDataWindow v.kind v.b d).map (fun w => (⟨w.1, w.2, 1⟩ : Ref)) := by
+  unfold dirData Spec.rawDataWindow ddSizeOfData ddPointerToRawData ddAddressOfRawData wadd64
+  have h1 := le32_lt v.b (d + 16)
+  have h2 := le32_lt v.b (d + 24)
+  have h3 := le32_lt v.b (d + 20)
+  cases v.kind <;> simp only
+  · rw [Nat.mod_eq_of_lt (by omega)]
+    by_cases h : le32 v.b (d + 24) + le32 v.b (d + 16) ≤ v.b.size
+    · rw [if_pos ⟨by omega, h⟩, if_pos h]; simp
+    · rw [if_neg (fun hh => h hh.2), if_neg h]; rfl
+  · rw [Nat.mod_eq_of_lt (by omega)]
+    by_cases h : le32 v.b (d + 20) + le32 v.b (d + 16) ≤ v.b.size
+    · rw [if_pos ⟨by omega, h⟩, if_pos h]; simp
+    · rw [if_neg (fun hh => h hh.2), if_neg h]; rfl
+
+theorem dirData_sound {v : View} {d : Nat} {r : Ref} (h : dirData v d = some r) :
+    r.off + r.len ≤ v.img.bytes.size ∧ r.align = 1 := by
+  rw [dirData_eq_spec] at h
+  unfold Spec.rawDataWindow at h
+  simp only at h
+  by_cases hc : (match v.kind with
+      | .file => le32 v.b (d + 24)
+      | .view => le32 v.b (d + 20)) + le32 v.b (d + 16) ≤ v.b.size
+  · rw [if_pos hc] at h
+    simp only [Option.map_some, Option.some.injEq] at h
+    subst h
+    exact ⟨hc, rfl⟩
+  · rw [if_neg hc] at h
+    cases h
+
+theorem refOK_align1 {img : Img} {r : Ref} (h : r.off + r.len ≤ img.bytes.size) (ha : r.align = 1) : RefOK img r := by
+  unfold RefOK; rw [ha]; exact ⟨h, Nat.mod_one _⟩
+
+theorem findNul_eq_some {b : Bytes} {off : Nat} :
+    ∀ (n i L : Nat), i ≤ L → L < i + n → byteAt b (off + L) = 0 →
+      (∀ j, i ≤ j → j < L → byteAt b (off + j) ≠ 0) → findNul b off n i = some L := by
+  intro n
+  induction n with
+  | zero => intro i L h1 h2; omega
+  | succ n ih =>
+    intro i L h1 h2 hz hnz
+    unfold findNul
+    by_cases hi : i = L
+    · subst hi; rw [if_pos hz]
+    · rw [if_neg (hnz i (Nat.le_refl _) (by omega))]
+      exact ih (i + 1) L (by omega) (by omega) hz (fun j hj1 hj2 => hnz j (by omega) hj2)
+
+theorem cstrFromBytes_of_isCStr {b : Bytes} {off avail n : Nat} (h : Spec.IsCStr b off avail n) :
+    cstrFromBytes b off avail = some ⟨off, n + 1, 1⟩ := by
+  obtain ⟨h1, h2, h3⟩ := h
+  unfold cstrFromBytes
+  rw [findNul_eq_some avail 0 n (Nat.zero_le _) (by omega) h2 (fun j _ hj => h3 j hj)]
+
+theorem cstrFromBytes_some {b : Bytes} {off len : Nat} {r : Ref} (h : cstrFromBytes b off len = some r) :
+    r.off = off ∧ 1 ≤ r.len ∧ r.len ≤ len ∧ r.align = 1 ∧ Spec.IsCStr b off len (r.len - 1) := by
+  unfold cstrFromBytes at h
+  cases hf : findNul b off len 0 with
+  | none => rw [hf] at h; cases h
+  | some n =>
+    rw [hf] at h
+    cases h
+    obtain ⟨_, g2, g3, g4⟩ := findNul_some _ _ _ hf
+    refine ⟨rfl, by simp, by simp only; omega, rfl, ?_⟩
+    simp only [Nat.add_sub_cancel]
+    exact ⟨by omega, g3, fun j hj => g4 j (Nat.zero_le _) hj⟩
+
+theorem cstrFromBytes_none {b : Bytes} {off len : Nat} (h : cstrFromBytes b off len = none) :
+    ∀ j, j < len → byteAt b (off + j) ≠ 0 := by
+  intro j hj hz
+  -- the first NUL at or before j would have been found
+  unfold cstrFromBytes at h
+  cases hf : findNul b off len 0 with
+  | some n => rw [hf] at h; cases h
+  | none =>
+    -- take the least NUL position ≤ j by strong induction
+    have key : ∀ m, m ≤ j → (∀ i, i < m → byteAt b (off + i) ≠ 0) → False := by
+      intro m
+      induction hm : j - m generalizing m with
+      | zero =>
+        intro hmj hall
+        have : m = j := by omega
+        subst this
+        rw [findNul_eq_some len 0 m (Nat.zero_le _) (by omega) hz (fun i _ hi => hall i hi)] at hf
+        cases hf
+      | succ k ih =>
+        intro hmj hall
+        by_cases hzm : byteAt b (off + m) = 0
+        · rw [findNul_eq_some len 0 m (Nat.zero_le _) (by omega) hzm (fun i _ hi => hall i hi)] at hf
+          cases hf
+        · exact ih (m + 1) (by omega) (by omega) (fun i hi => by
+            by_cases him : i = m
+            · subst him; exact hzm
+            · exact hall i (by omega))
+    exact key 0 (Nat.zero_le _) (fun i hi => by omega)
+
+theorem cstrTail_safe (v : View) (bytes : Ref) (k : Nat) (site : String) (hk : k ≤ bytes.len)
+    (hin : bytes.off + bytes.len ≤ v.img.bytes.size) :
+    OkOrErr (cstrTail v bytes k site) ∧
+    ∀ r, cstrTail v bytes k site = .ok r → RefOK v.img r ∧ r.off = bytes.off + k ∧ r.off + r.len ≤ bytes.off + bytes.len := by
+  unfold cstrTail
+  rw [if_neg (by omega)]
+  cases hc : cstrFromBytes v.b (bytes.off + k) (bytes.len - k) with
+  | none => exact ⟨okOrErr_err _, fun r hr => by cases hr⟩
+  | some c =>
+    obtain ⟨g1, g2, g3, g4, _⟩ := cstrFromBytes_some hc
+    refine ⟨okOrErr_ok _, ?_⟩
+    intro r hr
+    cases hr
+    exact ⟨refOK_align1 (by omega) g4, g1, by omega⟩
+
+theorem codeView_safe (v : View) (d : Nat) :
+    OkOrErr (codeView v d) ∧ ∀ cv, codeView v d = .ok cv → Spec.cvRefsOK v.img cv := by
+  unfold codeView
+  cases hd : dirData v d with
+  | none => exact ⟨okOrErr_err _, fun _ h => by cases h⟩
+  | some bytes =>
+    obtain ⟨hin, hal⟩ := dirData_sound hd
+    simp only
+    by_cases h16 : bytes.len < 16
+    · rw [if_pos h16]; exact ⟨okOrErr_err _, fun _ h => by cases h⟩
+    · rw [if_neg h16]
+      by_cases hm : (v.img.base + bytes.off) % 4 ≠ 0
+      · rw [if_pos hm]; exact ⟨okOrErr_err _, fun _ h => by cases h⟩
+      · rw [if_neg hm]
+        have hm' : (v.img.base + bytes.off) % 4 = 0 := by omega
+        rw [rawRef_eq_ok (by omega) (Nat.mod_one _)]
+        simp only [Out.bind_ok]
+        by_cases hnb : le32 v.b bytes.off = sigNB10
+        · rw [if_pos hnb, if_neg h16, rawRef_eq_ok (by omega) hm']
+          simp only [Out.bind_ok]
+          obtain ⟨t1, t2⟩ := cstrTail_safe v bytes 16 "code_view:bytes[16..]" (by omega) hin
+          rcases t1 with ⟨n, hn⟩ | ⟨e, he⟩
+          · rw [hn]; simp only [Out.bind_ok]
+            refine ⟨okOrErr_ok _, ?_⟩
+            intro cv hcv; cases hcv
+            exact ⟨⟨by simp only; omega, hm'⟩, (t2 n hn).1⟩
+          · rw [he]; exact ⟨okOrErr_err _, fun _ h => by cases h⟩
+        · rw [if_neg hnb]
+          by_cases hrs : le32 v.b bytes.off = sigRSDS
+          · rw [if_pos hrs]
+            by_cases h24 : bytes.len < 24
+            · rw [if_pos h24]; exact ⟨okOrErr_err _, fun _ h => by cases h⟩
+            · rw [if_neg h24, rawRef_eq_ok (by omega) hm']
+              simp only [Out.bind_ok]
+              obtain ⟨t1, t2⟩ := cstrTail_safe v bytes 24 "code_view:bytes[24..]" (by omega) hin
+              rcases t1 with ⟨n, hn⟩ | ⟨e, he⟩
+              · rw [hn]; simp only [Out.bind_ok]
+                refine ⟨okOrErr_ok _, ?_⟩
+                intro cv hcv; cases hcv
+                exact ⟨⟨by simp only; omega, hm'⟩, (t2 n hn).1⟩
+              · rw [he]; exact ⟨okOrErr_err _, fun _ h => by cases h⟩
+          · rw [if_neg hrs]; exact ⟨okOrErr_err _, fun _ h => by cases h⟩
+
+theorem dbgEntry_safe (v : View) (d : Nat) :
+    OkOrErr (dbgEntry v d) ∧ ∀ r, dbgEntry v d = .ok r → RefOK v.img r ∧ r.len = 12 ∧ r.align = 4 := by
+  unfold dbgEntry
+  cases hd : dirData v d with
+  | none => exact ⟨okOrErr_err _, fun _ h => by cases h⟩
+  | some data =>
+    obtain ⟨hin, hal⟩ := dirData_sound hd
+    simp only
+    by_cases h12 : data.len < 12
+    · rw [if_pos h12]; exact ⟨okOrErr_err _, fun _ h => by cases h⟩
+    · rw [if_neg h12]
+      by_cases hm : (v.img.base + data.off) % 4 ≠ 0
+      · rw [if_pos hm]; exact ⟨okOrErr_err _, fun _ h => by cases h⟩
+      · rw [if_neg hm]
+        have hm' : (v.img.base + data.off) % 4 = 0 := by omega
+        rw [rawRef_eq_ok (by omega) hm']
+        refine ⟨okOrErr_ok _, ?_⟩
+        intro r hr; cases hr
+        exact ⟨⟨by simp only; omega, hm'⟩, rfl, rfl⟩
+
+theorem pgoEntry_safe (v : View) (d : Nat) :
+    OkOrErr (pgoEntry v d) ∧ ∀ r, pgoEntry v d = .ok r → RefOK v.img r ∧ r.len % 4 = 0 ∧ r.align = 4 := by
+  unfold pgoEntry
+  cases hd : dirData v d with
+  | none => exact ⟨okOrErr_err _, fun _ h => by cases h⟩
+  | some data =>
+    obtain ⟨hin, hal⟩ := dirData_sound hd
+    simp only
+    by_cases h4 : data.len < 4
+    · rw [if_pos h4]; exact ⟨okOrErr_err _, fun _ h => by cases h⟩
+    · rw [if_neg h4]
+      by_cases hm : (v.img.base + data.off) % 4 ≠ 0
+      · rw [if_pos hm]; exact ⟨okOrErr_err _, fun _ h => by cases h⟩
+      · rw [if_neg hm]
+        have hm' : (v.img.base + data.off) % 4 = 0 := by omega
+        rw [rawRef_eq_ok (by omega) hm']
+        refine ⟨okOrErr_ok _, ?_⟩
+        intro r hr; cases hr
+        exact ⟨⟨by simp only; omega, hm'⟩, by simp, rfl⟩
+
+theorem dirEntry_safe (v : View) (d : Nat) :
+    OkOrErr (dirEntry v d) ∧ ∀ e, dirEntry v d = .ok e → Spec.entryRefsOK v.img e := by
+  unfold dirEntry
+  simp only
+  by_cases h2 : ddType v.b d = 2
+  · rw [if_pos h2]
+    obtain ⟨t1, t2⟩ := codeView_safe v d
+    rcases t1 with ⟨cv, hn⟩ | ⟨e, he⟩
+    · rw [hn]; simp only [Out.bind_ok]
+      exact ⟨okOrErr_ok _, fun e he => by cases he; exact t2 cv hn⟩
+    · rw [he]; exact ⟨okOrErr_err _, fun _ h => by cases h⟩
+  · rw [if_neg h2]
+    by_cases h4 : ddType v.b d = 4
+    · rw [if_pos h4]
+      obtain ⟨t1, t2⟩ := dbgEntry_safe v d
+      rcases t1 with ⟨r, hn⟩ | ⟨e, he⟩
+      · rw [hn]; simp only [Out.bind_ok]
+        exact ⟨okOrErr_ok _, fun e he => by cases he; exact (t2 r hn).1⟩
+      · rw [he]; exact ⟨okOrErr_err _, fun _ h => by cases h⟩
+    · rw [if_neg h4]
+      by_cases h13 : ddType v.b d = 13
+      · rw [if_pos h13]
+        obtain ⟨t1, t2⟩ := pgoEntry_safe v d
+        rcases t1 with ⟨r, hn⟩ | ⟨e, he⟩
+        · rw [hn]; simp only [Out.bind_ok]
+          exact ⟨okOrErr_ok _, fun e he => by cases he; exact (t2 r hn).1⟩
+        · rw [he]; exact ⟨okOrErr_err _, fun _ h => by cases h⟩
+      · rw [if_neg h13]
+        refine ⟨okOrErr_ok _, ?_⟩
+        intro e he
+        cases he
+        cases hd : dirData v d with
+        | none => trivial
+        | some r =>
+          obtain ⟨hin, hal⟩ := dirData_sound hd
+          exact refOK_align1 hin hal
+
 end Pelite.Dirs
